@@ -1,7 +1,7 @@
 #!/usr/bin/env python3
 """Regenerates MANIFEST.json from the table below (keeps the file valid at all times)."""
 import json, subprocess, os
-HERE = os.path.dirname(os.path.abspath(__file__))
+HERE = os.path.dirname(os.path.dirname(os.path.abspath(__file__)))
 
 CHECKS = {
  "C01": ("6", "RFC 2131/2132/3396 encoder+decoder in TLA+ (Dhcp4Wire); TLC checks round trip + split lemma exhaustively with scaled constants and validates every recorded ToBytes/FromBytes call of generated packet values against Enc4/Dec4",
@@ -12,6 +12,12 @@ CHECKS = {
          "trace validation of decode/encode chains against Dec4/Enc4/Canon"),
  "C07": ("6", "TLC enumerates every update/delete history in scope (MC_Dhcp4Ops) and the expected contents; each history is replayed through the real packet API, encoded 20 times; TLC checks bytes = Enc4(contents) and the independent Canonical() wire validator",
          "TLC-generated behaviours replayed into the real API + trace validation against Enc4/Canonical"),
+ "C10": ("6", "Client.tla (callers, receive loop, pending map, per-entry channel/done, mutex, Close) model-checked exhaustively in a small scope for OwnTransaction/FirstAcceptable/NoNilDelivery/ChanClosedOnlyAfterOwnDone/RefuseWhilePending/Isolation; the deliberately wrong design must fail (non-vacuity) and its counterexample schedule, TLC -simulate behaviours and random-scheduler runs are executed on the real nclient4 and nclient6 under a gate scheduler; every recorded execution is validated by TLC against the same actions",
+         "TLC model check of Client.tla + TLC-chosen schedules replayed into the real clients (gate hooks, synctest) + trace validation"),
+ "C11": ("6", "Client.tla in timed/urgent mode (testing/synctest semantics): Deadline, CtxPrompt, ClosePrompt, IdReusable, CloseStopsLoop model-checked; real clients run in virtual time under the gate scheduler with urgent policy, tries 0..4 and -1, ctx cancel and Close at random instants; TLC validates every execution (a Tick while the specification still has an enabled internal step, or a wake-up at the wrong instant, is rejected); leaving the synctest bubble requires every client goroutine to have exited",
+         "TLC model check of timed Client.tla + trace validation of virtual-time executions of the real clients"),
+ "C12": ("6", "same machinery as C11; the Schedule / NoRespAtBudget / NoTxAfterAccept properties of Client.tla are model-checked and every recorded Transmit must occur at start + T*(2^(i-1)-1) with identical bytes to the requested destination; NoResponse exactly at T*(2^n-1)",
+         "TLC model check of timed Client.tla + trace validation of recorded transmissions"),
 }
 
 def main():
